@@ -1,7 +1,8 @@
 """C10 — mini-batches partition the data and stay aligned with the affinity matrix."""
+import itertools
 import math
 import numpy as np
-from core import Check, enc_list, enc_opt
+from core import Check, enc_list, enc_opt, hx
 import impl
 from sklearn.neural_network._stochastic_optimizers import BaseOptimizer
 
@@ -9,6 +10,33 @@ from sklearn.neural_network._stochastic_optimizers import BaseOptimizer
 def model_epoch(chk, n, bs, perm):
     t = chk.ask(f"c10.epoch {n} {enc_opt(bs)} {enc_list(perm)}")
     return t.list(lambda: t.list(t.int))
+
+
+class Budget(Exception):
+    """raised by a recording hook when the implementation makes more steps than any terminating run could"""
+
+
+def rd_idx(t):
+    return t.list(t.int)
+
+
+def code_epoch(chk, n, bs, perm):
+    """code model (index arithmetic) with the rules regenerated from the sources: list of (rows, affinity rows, affinity columns) or None"""
+    t = chk.ask(f"c10.code_epoch {n} {enc_opt(bs)} {enc_list(perm)}")
+    return t.opt(lambda: t.list(lambda: (rd_idx(t), rd_idx(t), rd_idx(t))))
+
+
+def decode_block(ab, n, scale=1.0):
+    """rows / columns of the full tagged affinity (A[i, j] = (i*n + j) * scale) a delivered block was taken from; None if it is not such a block"""
+    ab = np.asarray(ab)
+    if ab.ndim != 2:
+        return None
+    v = np.rint(ab / scale).astype(int)
+    r = [int(x) // n for x in v[:, 0]] if v.shape[1] else []
+    c = [int(x) % n for x in v[0, :]] if v.shape[0] else []
+    if v.shape[0] and v.shape[1] and not np.array_equal(v, np.add.outer(np.array(r) * n, np.array(c))):
+        return None
+    return r, c
 
 
 def oracle_partition(chk, key, n, bs_eff, batches, replay):
@@ -36,7 +64,8 @@ def stream_batchify(chk, i, rng):
     seed = int(rng.integers(0, 2 ** 31 - 1))
     est = impl.make(name, batch_size=bs)
     X, A = tagged(n)
-    got = list(est._batchify(X, A if with_aff else None, np.random.RandomState(seed)))
+    # at most n batches can be non-empty: a generator that yields more never ends or yields empty batches
+    got = list(itertools.islice(est._batchify(X, A if with_aff else None, np.random.RandomState(seed)), 2 * n + 4))
     replay = {"estimator": name, "n": n, "batch_size": bs, "affinity": with_aff, "seed": seed}
     nonpar = name in impl.NONPARAMETRIC
     if nonpar:
@@ -48,6 +77,18 @@ def stream_batchify(chk, i, rng):
     got_idx = [[int(v) for v in xb[:, 0]] for xb, _ in got]
     if got_idx != exp:
         chk.fail("batchify:model-mismatch", f"_batchify batches differ from the model: impl={got_idx} model={exp}", replay)
+    if not nonpar:
+        code = code_epoch(chk, n, bs, perm)
+        if code is None:
+            chk.fail("batchify:code-model-fuel", "the regenerated code model ran out of fuel (its loop does not terminate within n+1 iterations)", replay)
+        else:
+            impl_y = []
+            for xb, ab in got:
+                rc = decode_block(ab, n) if with_aff and ab is not None else None
+                impl_y.append(([int(v) for v in xb[:, 0]],) + (tuple(rc) if rc else (None, None)))
+            code_y = [(r, ar, ac) if with_aff else (r, None, None) for r, ar, ac in code]
+            if impl_y != code_y:
+                chk.fail("batchify:code-model-mismatch", f"_batchify (rows, affinity rows, affinity columns) differ from the regenerated code model: impl={impl_y[:4]} model={code_y[:4]}", replay)
     for (xb, ab), idx in zip(got, got_idx):
         if with_aff:
             want = A[np.ix_(idx, idx)] if len(idx) else A[:0, :0]
@@ -85,11 +126,22 @@ def stream_decorated(chk, i, rng):
     t = chk.ask(f"c10.decorated {n} {enc_opt(bs)} {enc_list(perm)}")
     exp = t.list(lambda: (t.list(t.int), t.list(t.int)))
     replay = {"estimator": name, "n": n, "batch_size": bs, "seed": seed, "decorated": True}
+    t = chk.ask(f"c10.code_decorated {n} {enc_opt(bs)} {enc_list(perm)}")
+    code = t.opt(lambda: t.list(lambda: (rd_idx(t), rd_idx(t), rd_idx(t), rd_idx(t))))
+    if code is None:
+        chk.fail("decorated:code-model-fuel", "the regenerated code model ran out of fuel", replay)
     got_idx = []
-    for j, (xb, ab) in enumerate(est._batchify(X2, A, np.random.RandomState(seed))):
+    for j, (xb, ab) in enumerate(itertools.islice(est._batchify(X2, A, np.random.RandomState(seed)), 2 * n + 4)):
         rec = list(est._batchify.indices)
         idx = [int(v) for v in xb[:, 0]]
         got_idx.append(idx)
+        if code is not None:
+            rc = decode_block(ab, n)
+            mine = (rec, idx) + (tuple(rc) if rc else (None, None))
+            if j >= len(code) or mine != code[j]:
+                chk.fail("decorated:code-model-mismatch", f"decorated batch {j}: (recorded, rows, affinity rows, affinity columns)={mine} "
+                         f"regenerated code model={code[j] if j < len(code) else None}", replay)
+                code = None
         if j >= len(exp) or rec != exp[j][0] or idx != exp[j][1]:
             chk.fail("decorated:model-mismatch", f"decorated batch {j}: recorded={rec} rows={idx} model={exp[j] if j < len(exp) else None}", replay)
             break
@@ -139,8 +191,17 @@ def stream_fit(chk, i, rng):
     def rec_infer(Xb, retain=True):
         if retain:
             rows.append([int(round(v * 8)) for v in np.asarray(Xb)[:, 0]])
-        return orig_infer(Xb, retain) if name != "Douglas" or True else None
+            if len(rows) > max_iter * (n + 1) + 2:
+                raise Budget()
+        return orig_infer(Xb, retain)
     est._infer = rec_infer
+    grows = []
+    orig_cg = est._compute_grads
+
+    def rec_cg(Xb, y_pred, grads):
+        grows.append([int(round(v * 8)) for v in np.asarray(Xb)[:, 0]])
+        return orig_cg(Xb, y_pred, grads)
+    est._compute_grads = rec_cg
     orig_up = BaseOptimizer.update_params
 
     def counting(self, params, grads):
@@ -150,6 +211,10 @@ def stream_fit(chk, i, rng):
     replay = {"estimator": name, "n": n, "d": d, "batch_size": bs, "max_iter": max_iter, "solver": solver}
     try:
         est.fit(X, A)
+    except Budget:
+        chk.fail("fit:steps", f"fit made more than max_iter*(n+1) forward passes: the batching loop does not end", replay, layer="L3")
+        chk.count(None)
+        return
     finally:
         BaseOptimizer.update_params = orig_up
     nonpar = name in impl.NONPARAMETRIC
@@ -160,10 +225,14 @@ def stream_fit(chk, i, rng):
     if steps[0] != max_iter * per_epoch or len(train_rows) != steps[0] or len(blocks) != steps[0]:
         chk.fail("fit:steps", f"fit performed {steps[0]} optimiser steps / {len(train_rows)} forward passes, expected max_iter*ceil(n/bs)={max_iter * per_epoch}", replay, layer="L3")
     else:
+        epochs_ok = len(grows) == steps[0]
+        if not epochs_ok:
+            chk.fail("fit:steps", f"_compute_grads was called {len(grows)} times for {steps[0]} optimiser steps", replay, layer="L3")
         for e in range(max_iter):
             ep = train_rows[e * per_epoch:(e + 1) * per_epoch]
             perm = [v for b in ep for v in b]
             if not oracle_partition(chk, "fit", n, bs_eff, ep, dict(replay, epoch=e)):
+                epochs_ok = False
                 break
             if nonpar:
                 t = chk.ask(f"c10.cat {n}")
@@ -177,9 +246,29 @@ def stream_fit(chk, i, rng):
                 if not np.array_equal(blk, A[np.ix_(b, b)]):
                     chk.fail("fit:block", "affinity block used for a training step is not the block of that step's samples", dict(replay, batch=b, epoch=e), layer="L3")
                     break
+        if epochs_ok and not nonpar:
+            # the whole trace of optimiser steps against the regenerated code model: what _infer, the GEMINI and _compute_grads read
+            perms = [[v for b in train_rows[e * per_epoch:(e + 1) * per_epoch] for v in b] for e in range(max_iter)]
+            t = chk.ask(f"c10.code_fit {max_iter} {n} {enc_opt(bs)} {enc_list(perms, enc_list)}")
+            t.int()
+            code = t.opt(lambda: t.list(lambda: (rd_idx(t), rd_idx(t), rd_idx(t), rd_idx(t))))
+            mine = []
+            for r, blk, g in zip(train_rows, blocks, grows):
+                rc = decode_block(blk, n, 1.0 / (n * n))
+                mine.append((r,) + (tuple(rc) if rc else (None, None)) + (g,))
+            if code is None:
+                chk.fail("fit:code-model-fuel", "the regenerated code model ran out of fuel", replay)
+            elif code != mine:
+                k = next((k for k in range(min(len(code), len(mine))) if code[k] != mine[k]), min(len(code), len(mine)))
+                chk.fail("fit:code-model-mismatch", f"step {k} of fit reads (infer rows, affinity rows, affinity columns, grads rows)="
+                         f"{mine[k] if k < len(mine) else None}, regenerated code model {code[k] if k < len(code) else None} "
+                         f"({len(mine)} steps vs {len(code)})", replay)
         chk.traces += 1
     if est.n_iter_ != max_iter:
         chk.fail("fit:n_iter", f"n_iter_={est.n_iter_} but max_iter={max_iter}", replay, layer="L3")
+    mi = chk.ask(f"c10.code_n_iter {max_iter}").int()
+    if est.n_iter_ != mi:
+        chk.fail("fit:n_iter-model", f"n_iter_={est.n_iter_} but the regenerated code model says {mi}", replay)
     chk.dist["fit:" + name] += 1
     chk.count(("fit", name, n, bs, max_iter) if per_epoch >= 2 or nonpar else None)
 
@@ -197,32 +286,189 @@ def stream_path(chk, i, rng):
     gem = make_recording_gemini(log)
     est = impl.make(name, n_clusters=2, gemini=gem, max_iter=2, batch_size=bs, alpha=0.5, random_state=int(rng.integers(0, 1000)))
     replay = {"estimator": name, "n": n, "d": d, "batch_size": bs, "path": True}
-    est.path(X, A, alpha_multiplier=3.0, min_features=d - 1, max_patience=1)
+
+    def tag(Xb):
+        return [int(round(v * 8)) for v in np.asarray(Xb)[:, 0]]
+    orig_infer, orig_cg, orig_pp = est._infer, est._compute_grads, est.predict_proba
+
+    def rec_infer(Xb, retain=True):
+        if retain:
+            log.append(("infer", tag(Xb), len(Xb)))
+        if len(log) > 200000:
+            raise Budget()
+        return orig_infer(Xb, retain)
+
+    def rec_cg(Xb, y_pred, grads):
+        log.append(("cg", tag(Xb), len(Xb)))
+        return orig_cg(Xb, y_pred, grads)
+
+    def rec_pp(Xb):
+        log.append(("proba", tag(Xb), len(Xb)))
+        if len(log) > 200000:
+            raise Budget()
+        return orig_pp(Xb)
+    est._infer, est._compute_grads, est.predict_proba = rec_infer, rec_cg, rec_pp
+    try:
+        est.path(X, A, alpha_multiplier=3.0, min_features=d - 1, max_patience=1)
+    except Budget:
+        chk.fail("path:steps", "path() made more than 200000 forward passes: a batching / validation loop does not end", replay, layer="L3")
+        chk.count(None)
+        return
     bs_eff = n if bs is None else bs
     # validation calls: maximal runs of score-only evaluations must be the model's sequential blocks
     t = chk.ask(f"c10.val_blocks {n} {bs_eff}")
     vb = t.list(lambda: t.list(t.int))
-    run, nval = [], 0
+    t = chk.ask(f"c10.code_val {n} {bs_eff}")
+    cvb = t.opt(lambda: t.list(lambda: (rd_idx(t), rd_idx(t), rd_idx(t))))
+    if cvb is None:
+        chk.fail("path:code-model-fuel", "the regenerated code model of compute_val_score ran out of fuel", replay)
+    run, nval, last_rows = [], 0, None
+    epochs, cur_epoch, cur_step, seen_score = [], [], [], False
     for kind, a, m in log + [("grad", None, 0)]:
-        if kind == "score":
-            run.append(a)
+        if kind == "proba":
+            last_rows = a
+        elif kind == "score":
+            seen_score = True
+            if cur_epoch:
+                epochs.append(cur_epoch)
+                cur_epoch = []
+            run.append((last_rows, a))
+            last_rows = None
             if len(run) == len(vb):
-                for b, blk in zip(vb, run):
+                for b, (xr, blk) in zip(vb, run):
                     if not np.array_equal(blk, A[np.ix_(b, b)]):
                         chk.fail("path:val-block", "validation block is not the sequential block of the model", dict(replay, block=b))
+                if cvb is not None:
+                    mine = [(xr,) + (tuple(decode_block(blk, n, 1.0 / (n * n)) or (None, None))) for xr, blk in run]
+                    if mine != cvb:
+                        chk.fail("path:code-model-val", f"validation pass (X rows, y rows, y columns)={mine[:3]} differs from the regenerated code model {cvb[:3]}", replay)
                 nval += 1
                 run = []
         else:
-            if run:
+            if kind == "grad" and run:
                 chk.fail("path:val-count", f"a validation pass used {len(run)} blocks, model {len(vb)}", replay)
-            run = []
+            if kind == "grad":
+                run = []
+            if seen_score and a is not None:
+                # training steps of the path itself (after the initial fit): infer -> gemini(return_grad) -> compute_grads
+                cur_step.append((kind, a))
+                if kind == "cg":
+                    cur_epoch.append(cur_step)
+                    cur_step = []
+    for e, ep in enumerate(epochs):
+        shape_ok = all([k for k, _ in st] == ["infer", "grad", "cg"] for st in ep)
+        if not shape_ok:
+            chk.fail("path:step-shape", f"a training step of path() is not _infer -> GEMINI(return_grad) -> _compute_grads: {[[k for k, _ in st] for st in ep][:3]}", replay, layer="L3")
+            break
+        ep_rows = [st[0][1] for st in ep]
+        if not oracle_partition(chk, "path", n, bs_eff, ep_rows, dict(replay, epoch=e)):
+            break
+        perm = [v for b in ep_rows for v in b]
+        for st in ep:
+            b = st[0][1]
+            if st[2][1] != b or not np.array_equal(st[1][1], A[np.ix_(b, b)]):
+                chk.fail("path:block", "a training step of path() does not use the rows / affinity block of its own batch", dict(replay, batch=b, epoch=e), layer="L3")
+                break
+        t = chk.ask(f"c10.code_path_epoch {n} {enc_opt(bs)} {enc_list(perm)}")
+        code = t.opt(lambda: t.list(lambda: (rd_idx(t), rd_idx(t), rd_idx(t), rd_idx(t))))
+        mine = [(st[0][1],) + tuple(decode_block(st[1][1], n, 1.0 / (n * n)) or (None, None)) + (st[2][1],) for st in ep]
+        if code is None:
+            chk.fail("path:code-model-fuel", "the regenerated code model ran out of fuel", replay)
+            break
+        if code != mine:
+            chk.fail("path:code-model-mismatch", f"epoch {e} of path() reads {mine[:3]}, regenerated code model {code[:3]}", replay)
+            break
     chk.traces += 1
     chk.dist["path:" + name] += 1
+    chk.dist["path-epochs"] += len(epochs)
     chk.count(("path", name, n, bs) if len(vb) >= 2 and nval >= 2 else None)
 
 
+def stream_valscore(chk, i, rng):
+    """compute_val_score called directly with stub estimator / objective: blocks, weighting, normalisation."""
+    from gemclus.sparse._base_sparse import compute_val_score
+    n = int(rng.integers(1, 31)) if chk.tier == "quick" else int(rng.integers(1, 80))
+    d = int(rng.integers(1, 4))
+    bs = None if rng.random() < 0.15 else int(rng.integers(1, n + 3))
+    with_y = bool(rng.random() < 0.6)
+    dynamic = bool(rng.random() < 0.5)
+    sel = [0] + [int(c) for c in range(1, d + 1) if rng.random() < 0.5]
+    if rng.random() < 0.2:
+        sel = []
+    sc = rng.normal(size=n)
+    if rng.random() < 0.2:
+        sc[:] = float(rng.normal())        # equal block scores: the result must be that score whatever the block sizes
+    X = np.hstack([np.arange(n, dtype=float).reshape(-1, 1), rng.normal(size=(n, d))])
+    A = tagged(n)[1]
+    seen = []
+
+    class Clf:
+        alpha = 0.5
+
+        def _group_lasso_penalty(self):
+            return 1.5
+
+        def get_selection(self):
+            return np.array(sel, dtype=int)
+
+        def predict_proba(self, Xb):
+            return np.asarray(Xb)[:, :1]        # carries the row tags to the objective
+    clf = Clf()
+    clf.dynamic = dynamic
+
+    class Gem:
+        def compute_affinity(self, Xs, y=None):
+            r = [int(v) for v in np.asarray(Xs)[:, 0]]
+            return A[np.ix_(r, r)]
+
+        def __call__(self, y_pred, affinity, return_grad=False):
+            r = [int(v) for v in np.asarray(y_pred)[:, 0]]
+            seen.append((r, decode_block(affinity, n)))
+            if len(seen) > 2 * n + 4:
+                raise Budget()
+            return float(sc[r[0]]) if r else 0.0
+    bs_eff = bs if bs is not None else len(X)       # as _run_path passes it (checked on real path() runs by the path stream)
+    replay = {"n": n, "d": d, "batch_size": bs, "with_y": with_y, "dynamic": dynamic, "selection": sel, "scores": [float(v) for v in sc]}
+    try:
+        val, l1 = compute_val_score(clf, X, A if with_y else None, bs_eff, Gem())
+    except Budget:
+        chk.fail("valscore:blocks", "compute_val_score evaluated more than 2n+4 blocks: its loop does not end", replay, layer="L3")
+        chk.count(None)
+        return
+    val = float(val)
+    # L3: the property itself, independently of the model
+    blocks = [list(range(j, min(j + bs_eff, n))) for j in range(0, n, bs_eff)]
+    want = sum(float(sc[b[0]]) * len(b) for b in blocks) / n
+    if [r for r, _ in seen] != blocks:
+        chk.fail("valscore:blocks", f"validation rows {[r for r, _ in seen][:4]} are not the sequential blocks {blocks[:4]}", replay, layer="L3")
+    elif any(rc is None or list(rc[0]) != b or list(rc[1]) != b for (r, rc), b in zip(seen, blocks)):
+        chk.fail("valscore:affinity-block", "the affinity of a validation block is not the rows and columns of that block", replay, layer="L3")
+    if not abs(val - want) <= 1e-9 * (1 + abs(want) + float(np.abs(sc).max())):
+        chk.fail("valscore:weighted-mean", f"validation score {val!r} is not the len-weighted mean of the block scores {want!r}", replay, layer="L3")
+    if l1 != 1.5 * 0.5:
+        chk.fail("valscore:l1", f"validation_l1={l1!r} is not penalty*alpha", replay, layer="L3")
+    # L2: the regenerated code model
+    t = chk.ask(f"c10.code_val {n} {bs_eff}")
+    cvb = t.opt(lambda: t.list(lambda: (rd_idx(t), rd_idx(t), rd_idx(t))))
+    t = chk.ask(f"c10.code_path_val_score {n} {enc_opt(bs)} {enc_list([float(v) for v in sc], hx)}")
+    mval = t.opt(t.float)
+    if cvb is None or mval is None:
+        chk.fail("valscore:code-model-fuel", "the regenerated code model of compute_val_score ran out of fuel", replay)
+    else:
+        mine = [(r,) + (tuple(rc) if rc else (None, None)) for r, rc in seen]
+        theirs = cvb if with_y else [(xr, xr, xr) for xr, _, _ in cvb]     # without y the affinity is computed from X_batch itself
+        if mine != theirs:
+            chk.fail("valscore:code-model-blocks", f"(X rows, y rows, y columns)={mine[:3]} differ from the regenerated code model {theirs[:3]}", replay)
+        if not abs(val - mval) <= 1e-9 * (1 + abs(mval) + float(np.abs(sc).max())):
+            chk.fail("valscore:code-model-score", f"validation score {val!r}, regenerated code model {mval!r}", replay)
+    uneven = len(blocks) >= 2 and len(blocks[-1]) != len(blocks[0])
+    chk.dist["valscore:" + ("uneven" if uneven else "even" if len(blocks) >= 2 else "one-block")] += 1
+    chk.count(("val", n, bs, with_y, dynamic) if len(blocks) >= 2 else None)
+    chk.sample({"stream": "valscore", "n": n, "batch_size": bs, "blocks": blocks[:3], "score": val}, limit=6)
+
+
 STREAMS = {"batchify": (stream_batchify, 340, 3000), "decorated": (stream_decorated, 140, 1000),
-           "fit": (stream_fit, 48, 400), "path": (stream_path, 8, 60)}
+           "fit": (stream_fit, 48, 400), "path": (stream_path, 8, 60), "valscore": (stream_valscore, 200, 2000)}
 
 
 def main():
@@ -243,7 +489,8 @@ def main():
             chk.run_stream(name, fn, cnt)
     chk.finish(rule="streams: direct _batchify on every batched/nonparametric estimator with index-tagged data and affinity (n<=40 quick, <=120 thorough, "
                     "batch_size in 1..n+2/None), mlcl-decorated _batchify, real fits with recorded forward passes / affinity blocks / optimiser steps, "
-                    "real path() runs with recorded validation blocks. non-trivial = at least two batches per epoch (or a nonparametric full-batch case); "
+                    "real path() runs with recorded validation blocks and training steps, compute_val_score called directly with stub estimator/objective "
+                    "(blocks, len-weighted mean); every stream also against the code model instantiated with the rules regenerated from the sources. non-trivial = at least two batches per epoch (or a nonparametric full-batch case); "
                     "distinct = distinct (estimator, n, batch_size, ...) signature")
 
 
